@@ -199,6 +199,8 @@ def generate(rng, tier, idx):
             op['pseed'] = rng.randrange(1000)
         if rng.random() < 0.3:
             op['scribble'] = True
+        if kind == 'vine' and rng.random() < 0.5:
+            op['trunc'] = rng.choice([None, None, 1, 2, 4])   # per call; None = the default
         if 'switch' in repr(subj['ctor']) and rng.random() < 0.4:
             op['arm'] = True
         if rng.random() < 0.12:
@@ -321,22 +323,25 @@ def _fresh(subj):
     return zoo.load_class(subj['cls'])(*args, **ctor)
 
 
-def _fit(model, subj, data, state, poison, pseed, arm):
+def _fit(model, subj, data, state, poison, pseed, arm, trunc='subject'):
     SwitchMarginal.armed = bool(arm)
     try:
         with sterile(state), Poison(poison, seed=pseed):
             if subj['kind'] == 'vine':
-                return outcome(model.fit, data, truncated=subj.get('truncated', 3))
+                t = subj.get('truncated', 3) if trunc == 'subject' else trunc
+                if t is None:
+                    return outcome(model.fit, data)          # default truncation
+                return outcome(model.fit, data, truncated=t)
             return outcome(model.fit, data)
     finally:
         SwitchMarginal.armed = False
 
 
-def pristine_twin(subj, dataspec, state, poison, pseed, arm):
+def pristine_twin(subj, dataspec, state, poison, pseed, arm, trunc='subject'):
     """Runs in a pristine grandchild process: fresh object, one fit, observation."""
     twin = _fresh(subj)
     data = _make_data(dataspec)
-    out = _fit(twin, subj, data, state, poison, pseed, arm)
+    out = _fit(twin, subj, data, state, poison, pseed, arm, trunc)
     rec = {'outcome': outcome_class(out)}
     if out[0] == 'ok':
         rec['obs'] = obs.observe(twin, subj['kind'], data, poison=poison)
@@ -444,6 +449,9 @@ def _execute(run, ctx, subj, kind, cls_short, pristine):
             if n_fit_calls == 0:
                 _check_unfitted(ctx, live, subj, 'never fitted')
             _check_unfitted(ctx, _fresh(subj), subj, 'fresh')
+            seeded = _fresh(subj)
+            if outcome(seeded.set_random_state, 7)[0] == 'ok':
+                _check_unfitted(ctx, seeded, subj, 'fresh, seeded')
             ctx.event('misuse')
             continue
         if op['op'] == 'misuse_after_refusal':
@@ -489,10 +497,12 @@ def _execute(run, ctx, subj, kind, cls_short, pristine):
             what = op['data'].get('what', 'good')
             p = op.get('poison') or ['zero', 'zero']
             n_fit_calls += 1
-            out_l = _fit(live, subj, data, op['state'], p[0], op.get('pseed', 0), op.get('arm'))
+            tr_ = op.get('trunc', 'subject')
+            out_l = _fit(live, subj, data, op['state'], p[0], op.get('pseed', 0), op.get('arm'),
+                         tr_)
             twin = _fresh(subj)
             out_t = _fit(twin, subj, data, op['state'], p[1], op.get('pseed', 0) + 1,
-                         op.get('arm'))
+                         op.get('arm'), tr_)
             if op.get('arm'):
                 ctx.faults['F2_plugin_failure_in_fit'] += 1
             if p[0] != p[1]:
@@ -551,7 +561,7 @@ def _execute(run, ctx, subj, kind, cls_short, pristine):
                 if pristine is not None and not keys and not op.get('arm'):
                     # the same reference once more, from a process nothing in this run touched
                     ref = pristine.call('checks.c19', 'pristine_twin', subj, op['data'],
-                                        op['state'], p[1], op.get('pseed', 0) + 1, False)
+                                        op['state'], p[1], op.get('pseed', 0) + 1, False, tr_)
                     ctx.stats['pristine_process_twins'] += 1
                     if ref['outcome'] != 'ok':
                         ctx.violate('O1_fit_outcome_equals_pristine_process_fit',
@@ -573,7 +583,7 @@ def _execute(run, ctx, subj, kind, cls_short, pristine):
                     if refit and p[0] != p[1]:
                         # decide which cause: repeat the twin under the live pattern
                         twin2 = _fresh(subj)
-                        _fit(twin2, subj, data, op['state'], p[0], op.get('pseed', 0), False)
+                        _fit(twin2, subj, data, op['state'], p[0], op.get('pseed', 0), False, tr_)
                         if not obs.diff(a, obs.observe(twin2, kind, data, poison=p[0])):
                             oracle = 'O5_independent_of_uninitialised_memory'
                     ctx.violate(oracle, _subject_name(subj, 'fit'),
